@@ -34,6 +34,14 @@ REGISTRY = dict(
     technique="machine-checked proof in Coq (induction over loop fuel and over callback trees) + regenerated-fragment interface lemmas + differential trace correspondence",
 )
 
+COV_TARGETS = {
+    "stable_baselines3/common/callbacks.py": ["BaseCallback", "EventCallback", "CallbackList", "CheckpointCallback", "ConvertCallback", "EvalCallback",
+                                              "StopTrainingOnRewardThreshold", "EveryNTimesteps", "StopTrainingOnMaxEpisodes", "StopTrainingOnNoModelImprovement"],
+    "stable_baselines3/common/on_policy_algorithm.py": ["OnPolicyAlgorithm.collect_rollouts", "OnPolicyAlgorithm.learn"],
+    "stable_baselines3/common/off_policy_algorithm.py": ["OffPolicyAlgorithm.collect_rollouts", "OffPolicyAlgorithm.learn"],
+    "stable_baselines3/common/base_class.py": ["BaseAlgorithm._init_callback", "BaseAlgorithm._setup_learn"],
+}
+
 HEADER = """From Coq Require Import List ZArith Bool.
 From SB3V Require Import Model.Callbacks.
 Import ListNotations.
@@ -438,7 +446,17 @@ def _worker(case):
     import warnings
 
     warnings.simplefilter("ignore")
+    from harness import cov_collect as branchcov
+
     try:
+        if branchcov.enabled():
+            branchcov.start(list(COV_TARGETS))
+            try:
+                res = run_impl(case)
+            finally:
+                cov = branchcov.stop()
+            res["cov"] = cov
+            return res
         return run_impl(case)
     except Exception:  # noqa: BLE001
         import traceback
@@ -858,6 +876,11 @@ def main():
         "the second update_locals of on-policy collect_rollouts (same env step, before rollout-end) is dropped from the compared trace: it is idempotent on every callback's state",
         "ProgressBarCallback and LogEveryNTimesteps are not modelled; cadence theorems are about positive frequencies (save_freq / eval_freq / n_steps >= 1): a zero frequency raises ZeroDivisionError in the code and is never generated; evaluation means are an oracle list that the harness makes long enough",
     ]
+    from harness import cov_collect as branchcov
+
+    if branchcov.enabled():
+        executed = {tuple(x) for im in impls for x in (im.get("cov") or [])}
+        chk.notes["branchcov"] = {"targets": {k: v for k, v in COV_TARGETS.items()}, "never_executed": branchcov.report(COV_TARGETS, executed)}
     return chk.finish()
 
 
